@@ -57,4 +57,11 @@ VolLong(v) ==
 \* bind options given for a non-path source have no long equivalent in the grammar: outside the domain
 VolValid(v) == v.tgt # "" /\ (IsPath(v.src) \/ (LastOf(v, {"z", "Z"}) = "" /\ LastOf(v, {"rshared", "shared", "rslave", "slave", "rprivate", "private"}) = ""))
                /\ (~IsPath(v.src) \/ ~InModes(v, "nocopy"))
+\* ------------------------------------------------------------ devices  SRC[:DST[:PERM]]
+\* d = sequence of 1..4 sections; more than three sections is outside the grammar
+RECURSIVE JoinColon(_)
+JoinColon(ws) == IF Len(ws) = 1 THEN ws[1] ELSE ws[1] \o ":" \o JoinColon(Tail(ws))
+DevShort(d) == JoinColon(d)
+DevValid(d) == Len(d) <= 3
+DevLong(d) == M3("source", S(d[1]), "target", S(IF Len(d) >= 2 THEN d[2] ELSE d[1]), "permissions", S(IF Len(d) >= 3 THEN d[3] ELSE "rwm"))
 =============================================================================
